@@ -55,7 +55,7 @@ def sql_limit_offset(sql):
 
 def check_take(R, drv, tier, want=("position", "panic")):
     """K-take: composition of consecutive takes -> LIMIT/OFFSET; positional meaning and panic-freedom"""
-    kmax = 2 if tier == "quick" else 3
+    kmax = 1 if (tier == "quick" and "position" in want and "panic" not in want) else 2      # k = 3 directly does not finish (positional queries run past 15 min); any k is covered by K-take-step
     W = 80
     for k in range(1, kmax + 1):
         t0 = time.time()
@@ -609,3 +609,74 @@ def check_json_prim(R, drv, tier):
     R.sample({"kernel": "K-json", "exits": len(exits), "property": "no panic exit of map_json_primitive is reachable for any serde_json::Value scalar (PosInt(u64) / NegInt(i64<0) / Float)",
               "wall_s": round(time.time() - t0, 2)})
     core.log(f"[K-json] {len(exits)} exits in {time.time()-t0:.1f}s")
+
+
+def check_take_step(R, drv, tier):
+    """K-take-step: one loop iteration of range_of_ranges from an ARBITRARY accumulated range (inductive step:
+    together with the k=1 run it covers any number of consecutive takes)"""
+    t0 = time.time()
+    try:
+        I, exits, cur_loc = kernels.k_take_step()
+    except Inconclusive as e:
+        R.engine_error(f"K-take-step: {e}")
+        return
+    _account(R, I, "K-take-step")
+    W = 80
+    ext = lambda t: z3.SignExt(W - 64, t)
+    v_ = lambda n: z3.BitVec(n, 64)
+    p = z3.BitVec("p", W)
+
+    def sem(sd, sv, ed, ev, q):
+        return z3.And(z3.Or(sd == 0, q >= ext(sv)), z3.Or(ed == 0, q <= ext(ev)))
+    # invariant of the accumulated range and documented precondition of the new one: present bounds are >= 1
+    inv = [z3.Or(v_("cur_s_d") == 0, v_("cur_sv") >= 1), z3.Or(v_("cur_e_d") == 0, v_("cur_ev") >= 1)]
+    doc = kernels.documented_pre(1)
+    prange = z3.And(p >= 1, p < z3.BitVecVal(1 << 62, W))
+    s_cur = z3.If(v_("cur_s_d") == 1, ext(v_("cur_sv")), z3.BitVecVal(1, W))
+    want = z3.And(sem(v_("cur_s_d"), v_("cur_sv"), v_("cur_e_d"), v_("cur_ev"), p),
+                  sem(v_("r0_s_d"), v_("r0_sv"), v_("r0_e_d"), v_("r0_ev"), p - s_cur + 1))
+    ends = [e for e in exits if e.kind == "slice_end"]
+    if not ends:
+        R.engine_error("K-take-step: vacuous - loop head not reached")
+    queries = []
+    for e in ends:
+        new = e.value[cur_loc]
+        ns, ne = new.f[0], new.f[1]
+
+        def parts(o):
+            d = z3.BitVecVal(o.disc, 64) if isinstance(o.disc, int) else o.disc
+            val = o.pay[1][0].t if 1 in o.pay and 0 in o.pay[1] else z3.BitVecVal(0, 64)
+            return d, val
+        nsd, nsv = parts(ns)
+        ned, nev = parts(ne)
+        got = sem(nsd, nsv, ned, nev, p)
+        keeps_inv = z3.And(z3.Or(nsd == 0, nsv >= 1), z3.Or(ned == 0, nev >= 1))
+        queries.append((list(e.pc) + inv + doc + [prange], z3.Or(got != want, z3.Not(keeps_inv))))
+    results = kernels.check_many(queries, timeout_ms=300000)
+    for e, (v, model, dt) in zip(ends, results):
+        R.q(v, dt)
+        if v == "unknown":
+            R.engine_error("K-take-step: unknown")
+        elif v == "sat":
+            g = lambda nm: bv_to_py(model, v_(nm))
+            cur = (g("cur_sv") if g("cur_s_d") == 1 else None, g("cur_ev") if g("cur_e_d") == 1 else None)
+            r0 = kernels.model_ranges(model, 1)[0]
+            pv = bv_to_py(model, p)
+            # replay: two consecutive takes (the accumulated range is itself a take range) through the real compiler
+            rs = [cur, r0]
+            prql = takes_prql(rs)
+            r = drv.compile(prql, "sql.sqlite")
+            if r.get("ok"):
+                lim_n, off_n = sql_limit_offset(r["sql"])
+                lim_n = None if lim_n is not None and lim_n < 0 else lim_n
+                kept_native = pv > off_n and (lim_n is None or pv <= off_n + lim_n)
+                want_kept = py_take_reference(rs, pv)
+                if kept_native != want_kept:
+                    R.violation({"engine": "mirsym", "kernel": "K-take-step", "kind": "position"},
+                                f"K-take-step: takes {rs} compile to {r['sql']!r}; position {pv} kept={kept_native}, composed takes keep it={want_kept}",
+                                {"prql": prql, "sql": r["sql"], "ranges": rs, "position": pv})
+                    continue
+            R.engine_error(f"K-take-step: model current={cur} next={r0} p={pv} does not reproduce natively: {r.get('sql') or r.get('errors')}")
+    R.sample({"kernel": "K-take-step", "exits": len(exits), "property": "for an ARBITRARY accumulated range (bounds >= 1) and next take r: position p survives the new accumulated range  <=>  it survives the old one and p - start + 1 survives r; the invariant (bounds >= 1) is preserved",
+              "covers": "any number of consecutive takes by induction (base case and LIMIT/OFFSET tail: K-take k=1)", "wall_s": round(time.time() - t0, 2)})
+    core.log(f"[K-take-step] {len(exits)} exits in {time.time()-t0:.1f}s")
